@@ -220,6 +220,8 @@ pub fn run(case: &Value, ctx: &Ctx) -> Outcome {
             let m = case["m"].as_str().unwrap();
             let e = case["e"].as_u64().unwrap() as usize;
             let (int, frac) = if e >= m.len() { (format!("{m}{}", "0".repeat(e - m.len())), String::new()) } else { (if e == 0 { "0".to_string() } else { m[..e].to_string() }, m[e..].to_string()) };
+            // canonical printing: no superfluous leading zeros in the integer part
+            let int = { let t = int.trim_start_matches('0'); if t.is_empty() { "0".to_string() } else { t.to_string() } };
             let p = frac.len();
             let val = if p == 0 { int.clone() } else { format!("{int}.{frac}") };
             let text = format!("#SHAPE=<2>\n{val} -{val}\n");
